@@ -201,7 +201,8 @@ TEXT = {
           "of the main variable, recomputes the positive combination with the model (model-based reductum, normalisation to <, <=, =, "
           "exact signs of the leading coefficients under the model, condition table, recorded assumptions) and compares; proved: the "
           "combination cancels the main variable and is < 0 / <= 0 wherever both premises hold and the leading coefficients have the "
-          "recorded signs, an equation premise may take any multiplier (C16_fm_elim, C16_fm_lt, C16_fm_le, C16_fm_eq, C16_fmCond_table).",
+          "recorded signs, an equation premise may take any multiplier (C16_fm_elim, C16_fm_lt, C16_fm_le, C16_fm_eq, C16_fmCond_table; combined: every condition the table permits holds for the "
+          "positive combination, C16_fm_sound, and the normalisation of > / >= by negation keeps the meaning, C16_normCons_sound).",
   "design_ref": "5.16",
   "note": "found and fixed: resolve_fm accepted equal leading-coefficient signs (resolvent still contained the variable) and refused opposite signs",
   "technique": "Lean 4 proved real-arithmetic soundness lemmas + exact per-output validation of the C results",
